@@ -1450,7 +1450,13 @@ class ManifestRecursiveLoader:
             if fe.tag == 'IGNORE':
                 continue
 
-            self.loaded_manifests[mpath].entries.remove(fe)
+            # (remove this very entry: de-duplication may have detached
+            # it from the list, and equal entries are none of our business)
+            entries = self.loaded_manifests[mpath].entries
+            for i, oe in enumerate(entries):
+                if oe is fe:
+                    del entries[i]
+                    break
             self.updated_manifests.add(mpath)
             if fe.tag == 'MANIFEST':
                 unlinked_manifests.add(relpath)
